@@ -54,7 +54,7 @@ def nontrivial(s):
 
 
 def api_stage(prop, family, tier, seed, groups=("fm", "rist"), scale=None, scale_min=0, limit=None, workers=8, sample_rate=1.0,
-              negative=None, filter_fn=None):
+              negative=None, filter_fn=None, profile="release"):
     """TLC model-checks BPPApi over `family`, prints every behaviour; the harness replays all of them on the library."""
     st = StageResult("api:" + family)
     t0 = time.time()
@@ -92,14 +92,15 @@ def api_stage(prop, family, tier, seed, groups=("fm", "rist"), scale=None, scale
         args = ["run", "--scen", path, "--group", g, "--seed", str(seed)]
         if scale:
             args += ["--scale", scale, "--scale-min", str(scale_min)]
-        out = json.loads(vlib.run_harness(args, timeout=3000))
+        out = json.loads(vlib.run_harness(args, timeout=3000, profile=profile))
         st.evaluations += out["executed"]
         st.traces += out["executed"]
         st.notes["outcome_classes"][g] = out["classes"]
+        st.notes["profile"] = profile
         for mm in out["mismatches"]:
             if mm["message"].startswith("HARNESS"):
                 raise vlib.ToolError(f"harness could not build scenario {mm['index']} of {family}: {mm['message']}")
-            rep = {"kind": "api", "family": family, "group": g, "seed": mm["seed"], "scale": mm["scale"], "index": mm["index"],
+            rep = {"kind": "api", "family": family, "group": g, "seed": mm["seed"], "scale": mm["scale"], "index": mm["index"], "profile": profile,
                    "scenario": mm["scenario"], "message": mm["message"]}
             mbs = mm["scenario"]["sc"]["members"]
             if mm["message"].startswith("ROUNDTRIP") and len(mbs) == 1 and mbs[0]["n"] * mbs[0]["m"] == 1:
@@ -127,7 +128,7 @@ def replay_api(rep):
     args = ["run", "--scen", path, "--group", rep["group"], "--seed", str(rep["seed"]), "--first-index", str(rep["index"])]
     if rep.get("scale"):
         args += ["--scale", rep["scale"], "--scale-min", "0"]
-    out = json.loads(vlib.run_harness(args))
+    out = json.loads(vlib.run_harness(args, profile=rep.get("profile", "release")))
     return out["mismatches"]
 
 
@@ -376,5 +377,64 @@ def replay_case(rep):
     path = os.path.join(wd, "cases.ndjson")
     with open(path, "w") as fh:
         fh.write(json.dumps(rep["case"]) + "\n")
-    out = json.loads(vlib.run_harness(["cases", "--cases", path, "--group", rep["group"], "--seed", str(rep["seed"]), "--first-index", str(rep["index"])]))
+    out = json.loads(vlib.run_harness(["cases", "--cases", path, "--group", rep["group"], "--seed", str(rep["seed"]), "--first-index", str(rep["index"])], profile=rep.get("profile", "release")))
     return out["mismatches"]
+
+
+
+def raw_cases_stage(prop, name, cases, seed, groups=("fm", "rist"), profile="release"):
+    """Cases generated by the driver itself (no prediction beyond 'a value or an error')."""
+    st = StageResult("cases:" + name)
+    t0 = time.time()
+    wd = vlib.workdir(f"{prop}_raw_{name}")
+    path = os.path.join(wd, "cases.ndjson")
+    with open(path, "w") as fh:
+        for c in cases:
+            fh.write(json.dumps(c) + "\n")
+    for c in cases:
+        st.distinct.add(vlib.digest(c))
+    st.samples += cases[:2]
+    for g in groups:
+        out = json.loads(vlib.run_harness(["cases", "--cases", path, "--group", g, "--seed", str(seed)], timeout=3000, profile=profile))
+        st.evaluations += out["executed"]
+        st.traces += out["executed"]
+        for mm in out["mismatches"]:
+            st.add_violation(f"[{name}/{g}] {mm['message']}", {"kind": "case", "group": g, "seed": mm["seed"], "index": mm["index"], "case": mm["case"], "message": mm["message"], "profile": profile})
+    st.wall = time.time() - t0
+    return st
+
+
+def generators_stage(prop, tier, seed, threads=4):
+    """TLC checks naming/layout of the generators and prints the derivation script; the harness executes it."""
+    st = StageResult("mc+rp:generators")
+    t0 = time.time()
+    wd = vlib.workdir(f"{prop}_gens")
+    cfg = "CONSTANTS MaxParty = 32 MaxIdx = 64\nSPECIFICATION Spec\nINVARIANTS Injective MaskInjective Disjoint Layout CapIndep Emit\nCHECK_DEADLOCK FALSE\n"
+    r = vlib.run_tlc("MC_Generators", cfg, wd, workers=2, timeout=900)
+    if not r["ok"]:
+        raise vlib.ToolError("MC_Generators failed: " + str(r["violated"]) + r["out"][-2000:])
+    st.states += r["distinct"]
+    st.transitions += r["generated"]
+    script = vlib.replay_lines(r["out"])[0]
+    sp = os.path.join(wd, "script.json")
+    json.dump(script, open(sp, "w"))
+    st.samples.append({"derivation_script": {"prefix": script["prefix"], "first_label": script["labels"][0], "mask_label_1": script["mask_labels"][0]}})
+    for g in ("rist", "fm"):
+        out = json.loads(vlib.run_harness(["gens", "--script", sp, "--group", g, "--seed", str(seed), "--threads", str(threads),
+                                           "--maxcap", "32"], timeout=1800))
+        st.evaluations += out["generators_checked"]
+        st.traces += 1
+        st.notes[g] = {"generators_checked": out["generators_checked"], "distinct_encodings": out["distinct_encodings"]}
+        for i in range(out["distinct_encodings"]):
+            pass
+        st.distinct.update(f"{g}:{i}" for i in range(min(out["distinct_encodings"], 5000)))
+        for mm in out["mismatches"]:
+            st.add_violation(f"[generators/{g}] {mm}", {"kind": "gens", "group": g, "seed": seed, "message": mm})
+    st.notes["exhaustive"] = "every (bits, capacity) with bits in {1..64}, capacity in {1..32}, both kinds, every party and index"
+    st.wall = time.time() - t0
+    return st
+
+
+def replay_gens(rep):
+    st = generators_stage("replay", "quick", rep["seed"])
+    return [v["message"] for v in st.violations]
